@@ -18,14 +18,25 @@
         gate ONLY where e^{iπφ} = 1 resp. e^{2πiφ} = 1; for all three a concrete refutation at φ = 1/4.
   `zx_dagger`: the dagger of every generator (any arity, any phase) denotes the conjugate transpose;
   `gate2zx_arity`: images are well typed with the gate's numbers of inputs and outputs.
-  NOT PROVED (kept as `Prop`s; decided on every run by the oracle and exact correspondence)
-      * `circuit2zx_sound`, `zx_diagram_dagger`: the lifting from boxes to whole circuits / diagrams
-        (functoriality is C04/C09; needs associativity and the mixed-product law for list matrices);
-      * kets / bras of more than 3 bits; `gate2zx_sound` for the as-is `CRx` symbolically (its image has no
-        neat closed form; refuted at φ = 1/4).
+  WHOLE CIRCUITS AND DIAGRAMS (Proofs/CircuitAlg.lean, CircuitCyc8.lean, CircuitTablesZX*.lean):
+      * over EVERY commutative (star) ring: composition of well-typed ZX diagrams is the matrix product
+        (`zx_compose`), placing a sub-diagram at an offset is `1_l ⊗ ⟦d⟧ ⊗ 1_r` (`zx_whisker`), hence a
+        box-by-box translation whose images denote `k_i • U_i` denotes `(∏ k_i) • ⟦circuit⟧`
+        (`circuit2zx_sound_generic`); `⟦d†⟧ = ⟦d⟧ᴴ` for every well-typed diagram of any generators and any
+        phases (`zx_diagram_dagger_generic`, by induction from `zx_dagger`);
+      * for the executable model: `circuit2zx_sound` — the corrected `circuit2zx` of every well-typed
+        circuit over the translated gate set (table, Rz/Rx/CRz/CRx/CU1 at every even integer phase index, kets
+        and bras ≤ 4 bits, normalised scalars) is a well-typed diagram denoting `k • ⟦c⟧` for ONE invertible,
+        hence non-zero, `k`; `circuit2zx_sound_asis_partial` the same for the table as it is on circuits
+        without CRz/CRx/CU1; `zx_diagram_dagger` for every well-typed diagram with normalised scalars.
+  NOT PROVED (decided on every run by the oracle and exact correspondence)
+      * kets / bras of more than 4 bits and odd phase indices inside whole circuits (the per-gate hypothesis
+        `Gate.zxOK` is decidable: `circuit2zx_sound_of`); `gate2zx_sound` for the as-is `CRx`
+        symbolically (its image has no neat closed form; refuted at φ = 1/4).
 -/
 import Proofs.ZXTableFixed
 import Proofs.GatesComplex
+import Proofs.CircuitProps
 
 namespace DV.C16
 open DV DV.Gates
@@ -168,17 +179,69 @@ theorem zx_dagger_exact :
     ZXBox.swap.dagger.sem.mat Cyc8.invSqrt2 = dagger (ZXBox.swap.sem.mat Cyc8.invSqrt2) :=
   ⟨zx_dagger_table, zx_dagger_h_swap.1, zx_dagger_h_swap.2⟩
 
-/-! ### full statements that are NOT proved -/
+/-! ### whole circuits and whole diagrams -/
 
-/-- Whole circuits: ONE non-zero scalar (with the corrected table). -/
-def circuit2zx_sound : Prop :=
-  ∀ (n : Nat) (c : Circ) (d : ZXDiag), circuit2zx true c = .ok d →
-    ∃ k : Cyc8, k ≠ 0 ∧ ZXDiag.eval n d = msmul k (evalCirc n c)
+/-- Composition of well-typed ZX diagrams denotes the matrix product — every commutative ring. -/
+theorem zx_compose {R : Type} [CommRing R] (ρ : R) {w k m : Nat} {d d' : ZXD R}
+    (h : ZXD.codFrom w d = some k) (h' : ZXD.codFrom k d' = some m) :
+    evalZX ρ w (d ++ d') = mul (evalZX ρ w d) (evalZX ρ k d') := evalZX_append ρ h h'
 
-/-- Whole diagrams: the dagger denotes the conjugate transpose. -/
-def zx_diagram_dagger : Prop :=
-  ∀ (n m : Nat) (d : ZXDiag), ZXDiag.codFrom n d = some m →
-    ZXDiag.eval m d.dagger = dagger (ZXDiag.eval n d)
+/-- A diagram placed at offset `l` with `r` wires to its right denotes `1_l ⊗ ⟦d⟧ ⊗ 1_r`. -/
+theorem zx_whisker {R : Type} [CommRing R] (ρ : R) (l r : Nat) {a b : Nat} {d : ZXD R}
+    (h : ZXD.codFrom a d = some b) :
+    evalZX ρ (l + a + r) (zxShift l d) = kron (idQ l) (kron (evalZX ρ a d) (idQ r)) := evalZX_shift ρ l r h
+
+/-- **ONE overall scalar**: if the image of every box denotes `k_i • U_i` (`ZXImage`), the image of the
+    circuit is well typed and denotes `(∏ k_i) • ⟦circuit⟧` — every commutative ring. -/
+theorem circuit2zx_sound_generic {R : Type} [CommRing R] (ρ : R) {n m : Nat} {L : Layers R} {Z : ZXD R}
+    {ks : List R} (h : ZXImage ρ n L Z ks m) :
+    LTyped n L m ∧ ZXD.codFrom n Z = some m ∧ evalZX ρ n Z = msmul ks.prod (evalLayers n L) :=
+  evalZX_image ρ h
+
+/-- **`⟦d†⟧ = ⟦d⟧ᴴ` for whole diagrams** — every commutative star ring with `star r = r`, every
+    well-typed diagram, any generators, any phases. -/
+theorem zx_diagram_dagger_generic {R : Type} [CommRing R] [StarRing R] (ρ : R) (hρ : star ρ = ρ)
+    {w m : Nat} {d : ZXD R} (h : ZXD.codFrom w d = some m) :
+    evalZX ρ m d.daggerS = dagger (evalZX ρ w d) := evalZX_dagger ρ hρ h
+
+/-- The per-gate hypothesis of the executable instance (`Gate.zxOK g k k'`: the image of `g` under the
+    corrected table is a well-typed diagram with normalised scalars denoting `k • ⟦g⟧`, `k·k' = 1`), on
+    the translated gate set; scalars for every normalised value. -/
+theorem gate2zx_table_ok :
+    (∀ p ∈ zxTable, p.1.zxOK p.2 (zxInv p.2) = true) ∧
+    (∀ z : Cyc8, z.isNormal = true → (Gate.scalar z).zxOK 1 1 = true) := ⟨zxTable_ok, scalar_zxOK⟩
+
+/-- … and Rz, Rx, CRz, CRx, CU1 at EVERY even integer phase index (`ζ⁸ = 1`). -/
+theorem gate2zx_every_phase_index (k : RotKind) (n : Int) (hk : k ≠ .Ry) (hn : n % 2 = 0) :
+    ∃ κ, (Gate.rot k n).zxOK κ (zxInv κ) = true := rot_zxOK_all k n hk hn
+
+/-- Whole circuits from the per-gate hypothesis alone. -/
+theorem circuit2zx_sound_of (n m : Nat) (c : Circ) (d : ZXDiag) (ht : Circ.codFrom n c = some m)
+    (hg : ∀ x ∈ c, ∃ k k', x.2.1.zxOK k k' = true) (h : circuit2zx true c = .ok d) :
+    ∃ K K' : Cyc8, K ≠ 0 ∧ Cyc8.val K * Cyc8.val K' = 1 ∧ ZXDiag.codFrom n d = some m ∧
+      ZXDiag.eval n d = msmul K (evalCirc n c) := Gates.circuit2zx_sound_of ht hg h
+
+/-- **Whole circuits: ONE non-zero scalar** (corrected table), every well-typed circuit over the
+    translated gate set; the image is well typed with the circuit's arity. -/
+theorem circuit2zx_sound (n m : Nat) (c : Circ) (d : ZXDiag) (ht : Circ.codFrom n c = some m)
+    (hg : ∀ x ∈ c, x.2.1.inZXSet) (h : circuit2zx true c = .ok d) :
+    ZXDiag.codFrom n d = some m ∧ ∃ k : Cyc8, k ≠ 0 ∧ ZXDiag.eval n d = msmul k (evalCirc n c) :=
+  circuit2zx_sound_cyc8 n m c d ht hg h
+
+/-- The table AS IT IS (F7 open) on circuits without CRz, CRx, CU1 (`_partial`). -/
+theorem circuit2zx_sound_asis_partial (n m : Nat) (c : Circ) (d : ZXDiag)
+    (ht : Circ.codFrom n c = some m)
+    (hg : ∀ x ∈ c, (∃ k, (x.2.1, k) ∈ zxTableA ++ zxTableC) ∨
+      ∃ z : Cyc8, x.2.1 = Gate.scalar z ∧ z.isNormal = true)
+    (h : circuit2zx false c = .ok d) :
+    ZXDiag.codFrom n d = some m ∧ ∃ k : Cyc8, k ≠ 0 ∧ ZXDiag.eval n d = msmul k (evalCirc n c) :=
+  circuit2zx_sound_asis n m c d ht hg h
+
+/-- **Whole diagrams: the dagger denotes the conjugate transpose** — every well-typed ZX diagram of the
+    executable syntax (any arities, all phases `p/8`, normalised scalars). -/
+theorem zx_diagram_dagger (n m : Nat) (d : ZXDiag) (ht : ZXDiag.codFrom n d = some m)
+    (hn : d.normal = true) : ZXDiag.eval m d.dagger = dagger (ZXDiag.eval n d) :=
+  ZXDiag.eval_dagger ht hn
 
 /-! ### concrete non-trivial instances -/
 
@@ -188,6 +251,21 @@ example : circuit2zx false [(0, .ket [true], 0), (0, .q gH, 0)] =
     .ok [(.x 0 1 4, 0), (.scalar Cyc8.invSqrt2, 1), (.h, 0)] := by decide
 example : ZXDiag.eval 1 (ZXDiag.dagger [(.z 1 2 3, 0), (.x 2 1 1, 0)]) =
     dagger (ZXDiag.eval 1 [(.z 1 2 3, 0), (.x 2 1 1, 0)]) := by decide
+/-- A circuit meeting the hypotheses of `circuit2zx_sound`: Ket(1) ; H ; CRz(1/4) on the pair ; scalar ;
+    Rx(−3/4). -/
+def c1 : Circ :=
+  [(0, .ket [true], 1), (0, .q gH, 1), (0, .rot .CRz 2, 0), (2, .scalar Cyc8.I, 0), (1, .rot .Rx (-6), 0)]
+example : Circ.codFrom 1 c1 = some 2 := by decide
+example : ∀ x ∈ c1, x.2.1.inZXSet := by
+  intro x hx
+  simp only [c1, List.mem_cons, List.not_mem_nil, or_false] at hx
+  rcases hx with rfl | rfl | rfl | rfl | rfl
+  · exact .inl ⟨1, by simp [zxTable, zxTableC, bitstringsUpTo4, bitstringsUpTo3, bits]⟩
+  · exact .inl ⟨1, by simp [zxTable, zxTableA, zxNamed, named, zxScalarNamed]⟩
+  · exact .inl ⟨Cyc8.invSqrt2, by simp [zxTable, zxTableB, ctrlRotKinds, evenPhases]⟩
+  · exact .inr (.inl ⟨Cyc8.I, rfl, rfl⟩)
+  · exact .inr (.inr ⟨.Rx, -6, rfl, by decide, by decide⟩)
+example : (circuit2zx true c1).toOption.map List.length = some 9 := by decide
 example : spiderVal (1 / 2) = nuC 1 ∧ nuC 1 ≠ 0 := ⟨by simpa using spiderVal_half 1, nuC_ne_zero 1⟩
 
 end DV.C16
